@@ -8,7 +8,8 @@
    ++/--, operand must be a simple assignment target), UnaryExpression
    (delete void typeof + - ~ !), ExponentiationExpression (left operand must be
    an UpdateExpression: "-a ** b" is not derivable), Multiplicative ... BitwiseOR,
-   LogicalAND/OR, CoalesceExpression (its operands are BitwiseOR expressions or
+   LogicalAND/OR, ConditionalExpression (the test is a ShortCircuitExpression, the branches are
+   AssignmentExpressions), MemberExpression "[" Expression "]", CoalesceExpression (its operands are BitwiseOR expressions or
    a CoalesceExpression on the left: "a ?? b || c" and "a || b ?? c" are not
    derivable), AssignmentExpression (right associative, simple targets only),
    Expression (comma).  The binding strengths below are the stratification of
@@ -54,6 +55,11 @@ Definition postfix_op := find_op KPost.
 Definition binary_op := find_op KBin.
 
 Definition is_dot (t : tok) : bool := tok_eqb t (TP [46]).
+Definition is_quest (t : tok) : bool := tok_eqb t (TP [63]).
+Definition is_colon (t : tok) : bool := tok_eqb t (TP [58]).
+Definition is_lbrack (t : tok) : bool := tok_eqb t (TP [91]).
+Definition is_rbrack (t : tok) : bool := tok_eqb t (TP [93]).
+Definition S_Cond := 5.
 Definition is_open (t : tok) : bool := tok_eqb t (TP [40]).
 Definition is_close (t : tok) : bool := tok_eqb t (TP [41]).
 
@@ -70,7 +76,7 @@ Definition atom_of (t : tok) : option expr :=
 Definition is_target (e : expr) : bool :=
   match e with
   | EId s => negb (mem s ecma_reserved_words)
-  | EDot _ _ => true
+  | EDot _ _ | EIndex _ _ => true
   | _ => false
   end.
 
@@ -126,6 +132,29 @@ with parse_suffix (fuel : nat) (L : Z) (left : expr) (ll : Z) (ts : list tok) : 
         | TId s :: r' => if S_Member <=? ll then parse_suffix n L (EDot left s) S_Member r' else None
         | _ => None
         end
+      else if is_lbrack t then
+        (* MemberExpression [ Expression ] *)
+        if S_Member <=? ll then
+          match parse_expr n 0 r with
+          | Some (i, c :: r') => if is_rbrack c then parse_suffix n L (EIndex left i) S_Member r' else None
+          | _ => None
+          end
+        else None
+      else if is_quest t then
+        (* ConditionalExpression : ShortCircuitExpression ? AssignmentExpression : AssignmentExpression *)
+        if S_Cond <=? L then Some (left, ts)
+        else if S_Cond <? ll then
+          match parse_expr n 3 r with
+          | Some (y, c :: r') =>
+              if is_colon c then
+                match parse_expr n 3 r' with
+                | Some (no, r'') => parse_suffix n L (ECond left y no) S_Cond r''
+                | None => None
+                end
+              else None
+          | _ => None
+          end
+        else None
       else match postfix_op t with
       | Some o =>
           if S_Update <=? L then Some (left, ts)
@@ -166,5 +195,7 @@ Fixpoint norm (e : expr) : expr :=
   | EDot t s => EDot (norm t) s
   | EUn o v => EUn o (norm v)
   | EBin o l r => if op_eqb o BComma then comma_app (norm l) (norm r) else EBin o (norm l) (norm r)
+  | ECond c y n => ECond (norm c) (norm y) (norm n)
+  | EIndex t i => EIndex (norm t) (norm i)
   | _ => e
   end.
